@@ -51,11 +51,19 @@ type env struct {
 func newEnv(t vkit.TB) *env {
 	envCounter++
 	// every other listener keeps its records on the file back end
-	backend := vkit.Inmem
-	if envCounter%2 == 1 {
+	// ... and every third one on a storage that can look node records up by node ID
+	// (the repository's store-once back end, its own lookup)
+	backend, byNodeID := vkit.Inmem, false
+	switch envCounter % 3 {
+	case 1:
 		backend = vkit.File
+	case 2:
+		backend, byNodeID = vkit.StoreOnce, true
 	}
-	w := vkit.NewWorld(vkit.WorldConfig{Backend: backend})
+	w := vkit.NewWorld(vkit.WorldConfig{Backend: backend, NodeIdLoader: byNodeID})
+	if w.NodeID != nil {
+		w.NodeID.Native = true
+	}
 	pathIDs := []string{"../roots/roots", "../../../../../../etc/hostname", "/dev/null", "a/b", ".."}
 	if fs, ok := w.Inner.(*file.Storage); ok {
 		if err := syscall.Mkfifo(filepath.Join(fs.BaseDir(), "pipe"), 0o600); err == nil {
